@@ -43,6 +43,25 @@ func runC01(c *Ctx) bool {
 		func() ([]int, []string) { return star(60, 9), nil },
 		func() ([]int, []string) { return star(11, 11), nil },
 		func() ([]int, []string) { return star(3, 2), []string{"long"} },
+		// more than 65535 nodes in one document (a node counter or an index that wraps)
+		func() ([]int, []string) { return star(260, 256), nil },
+	}
+	if !c.Quick() {
+		extremes = append(extremes, func() ([]int, []string) { return chain(1500), nil })
+	}
+	for _, w := range []int{31, 32, 33, 34, 63, 64, 65, 66, 127, 128, 129, 255, 256, 257} {
+		w := w
+		extremes = append(extremes, func() ([]int, []string) {
+			d, n := gen.WideDup(w, []int{0, w / 2, w - 2, w - 1})
+			return d, append([]string{"\x00given"}, n...)
+		})
+	}
+	for _, depth := range []int{66, 70, 130} {
+		depth := depth
+		extremes = append(extremes, func() ([]int, []string) {
+			d, n := gen.DeepMixed(depth)
+			return d, append([]string{"\x00given"}, n...)
+		})
 	}
 	for k, mk := range extremes {
 		idx := base + k
@@ -52,7 +71,14 @@ func runC01(c *Ctx) bool {
 		depths, flag := mk()
 		names := make([]string, len(depths))
 		r := gen.New(c.Seed, 102, uint64(k))
+		if len(flag) > 0 && flag[0] == "\x00given" {
+			copy(names, flag[1:]) // the generator supplies the names
+			flag = []string{"\x00given"}
+		}
 		for i := range names {
+			if len(flag) == 1 && flag[0] == "\x00given" {
+				break
+			}
 			names[i] = []string{"a", "b", "c"}[r.Intn(3)] + strconv.Itoa(i%7)
 			if flag != nil {
 				names[i] = gen.NameOf(r, gen.ClassLong)
@@ -127,7 +153,12 @@ func evalC01(c *Ctx, cs *Case) {
 		branches = []int{0, 3, r.Intn(len(BranchTuples))}
 	}
 	fkey := f.String()
-	for _, sp := range c01Spellings(c, cs, f) {
+	spellings := c01Spellings(c, cs, f)
+	if len(cs.Depths) > 20000 || (len(cs.Depths) > 1000 && merged.Depth() > 1000) {
+		// the giant documents are about counters and indices, not about notation
+		spellings, branches = []gen.Spelling{gen.Canonical}, []int{0}
+	}
+	for _, sp := range spellings {
 		doc := gen.Spell(f, sp)
 		spkey := fkey + "\x00" + sp.String()
 		for _, bi := range branches {
